@@ -878,6 +878,27 @@ Theorem C03_source_get_branches : forall st s (names : list Z) (single : bool) m
 Proof. exact get_of_source. Qed.
 Print Assumptions C03_source_get_branches.
 
+(* GroupBy.count and GroupBy.agg are the dict comprehensions of the source, translated (gen_group_count, gen_group_agg) *)
+Theorem C03_source_groupby_count : forall st s k m ks,
+  members st s = Some m -> all_some (eval_key (st_tbl st) k) m = Some ks ->
+  let g := groupby_members (key_or0 (st_tbl st) k) m in
+  step st (GroupCount s k) = (st, ROk (zlen g :: pairs_flat (gen_group_count g))).
+Proof. exact step_group_count_of_source. Qed.
+Print Assumptions C03_source_groupby_count.
+
+Theorem C03_source_groupby_agg : forall st s k n f m ks,
+  members st s = Some m -> all_some (eval_key (st_tbl st) k) m = Some ks ->
+  (forall a, In a m -> attr_of (st_tbl st) a n <> None) ->
+  let g := groupby_members (key_or0 (st_tbl st) k) m in
+  step st (GroupAgg s k n f) = (st, ROk (pairs_flat (gen_group_agg (agg_or0 f) (attr_or0 (st_tbl st) n) g))).
+Proof. exact step_group_agg_of_source. Qed.
+Print Assumptions C03_source_groupby_agg.
+
+Example C03_source_groupby_example :
+  gen_group_count [(4, [3; 1]); (-2, [2])] = [(4, 2); (-2, 1)] /\
+  gen_group_agg (agg_or0 FMax) (attr_or0 (st_tbl ex_state) 0) [(1, [3; 2]); (0, [1])] = [(1, 4); (0, 4)].
+Proof. vm_compute. repeat split. Qed.
+
 (* the signature defaults the driver relies on when it omits an argument, and the verbatim glue *)
 Theorem C03_source_defaults : gen_agentset_defaults = (false, [false; false; false], 0, true, true, true).
 Proof. exact defaults_bridge. Qed.
